@@ -625,7 +625,8 @@ def build_checks_C17():
     from .engine import REPO, WORK
     problems, notes = [], []
     for feats in (["--no-default-features"], ["--no-default-features", "--features", "alloc"], []):
-        tdir = os.path.join(WORK, "c17-target")
+        import hashlib
+        tdir = os.path.join(WORK, "c17-target" + ("" if REPO == "/repo" else "-" + hashlib.sha1(REPO.encode()).hexdigest()[:8]))
         p = subprocess.run(["cargo", "build", "--offline", "--quiet", "--lib"] + feats, cwd=REPO,
                            env=dict(os.environ, CARGO_TARGET_DIR=tdir, CARGO_NET_OFFLINE="true"),
                            capture_output=True, text=True)
